@@ -1,7 +1,7 @@
 """
 Scenario for C16: `async_fifo_stream` / `AsyncParmapperAsync` under the virtual-time event loop (E2),
 differentially against the synchronous `fifo_stream` / `Stream.parmap(executor='thread')` on the
-same case, and (sampled, real loop + real threads) `AsyncParmapper`.
+same case.  (The thread-mixing variants `AsyncParmapper`, `AsyncServer` are in `scen_asrv.py`.)
 
 One run = one case dict (JSON-able) -> result dict with
 * `events`: the observable events of the async run (pull / preFail / submit / start / finish / yld /
@@ -24,7 +24,7 @@ import vloop
 from mpservice._common import StopRequested
 from mpservice.streamer import Stream
 from mpservice.streamer._streamer import async_fifo_stream, fifo_stream
-from mpservice.streamer._streamer_async import AsyncParmapper, AsyncParmapperAsync
+from mpservice.streamer._streamer_async import AsyncParmapperAsync
 
 MODEL = 'afifo'
 BASE = 100  # element i is the value BASE + i
@@ -218,7 +218,7 @@ class _Book:
         return ('raise', 'other:' + type(e).__name__, None), False
 
 
-def _run_async(case, real_loop=False):
+def _run_async(case):
     ev = []
     log = ev.append
     book = _Book(case, log)
@@ -263,15 +263,6 @@ def _run_async(case, real_loop=False):
         log(('submit', x - book.off))
         return awork(x)
 
-    def swork(x):
-        # sync worker for AsyncParmapper (thread pool); no durations: the OS decides the order
-        i = x - book.off
-        book.enter(i)
-        try:
-            return book.outcome(i)
-        finally:
-            book.leave(i)
-
     async def main():
         loop = asyncio.get_running_loop()
         pre = book.pre if case['pre'] else None
@@ -284,9 +275,6 @@ def _run_async(case, real_loop=False):
         elif kind == 'apmap':
             gen = AsyncParmapperAsync(Src(), work_factory, concurrency=case['conc'], return_x=case['retx'],
                                       return_exceptions=case['rexc'], preprocessor=pre).__aiter__()
-        elif kind == 'apmap_thread':
-            gen = AsyncParmapper(Src(), swork, executor='thread', concurrency=case['conc'], return_x=case['retx'],
-                                 return_exceptions=case['rexc'], preprocessor=pre).__aiter__()
         else:
             raise ValueError(kind)
         out = []
@@ -318,23 +306,11 @@ def _run_async(case, real_loop=False):
         log(('join',))
         # let whatever the feeder submitted after the drain run to its end (it is not awaited by the
         # generator; asyncio.run would cancel it when the loop shuts down)
-        if not real_loop:
-            await asyncio.sleep(sum(dur) + 1)
+        await asyncio.sleep(sum(dur) + 1)
         log(('final',))
         return out, end, ident
 
-    if real_loop:
-        loop = asyncio.new_event_loop()
-        try:
-            v = loop.run_until_complete(asyncio.wait_for(main(), 30))
-            e = None
-        except BaseException as ex:  # noqa: BLE001
-            v, e = None, ex
-        finally:
-            loop.close()
-        stats = {}
-    else:
-        v, e, stats = vloop.run(main)
+    v, e, stats = vloop.run(main)
     return v, e, stats, ev, book
 
 
@@ -400,8 +376,7 @@ def _run_sync(case):
 
 
 def run_case(case):
-    real_loop = case['kind'] == 'apmap_thread'
-    v, e, stats, ev, book = _run_async(case, real_loop=real_loop)
+    v, e, stats, ev, book = _run_async(case)
     res = dict(events=ev, stats=stats, max_running=book.max_running, monitors=[], out=None, end=None,
                switches=stats.get('jumps', 0))
     mon = res['monitors']
@@ -411,7 +386,7 @@ def run_case(case):
     res['sync_out'] = sync_out
     res['sync_end'] = list(sync_end)
     if e is not None:
-        if isinstance(e, (vloop.Hang, asyncio.TimeoutError)):
+        if isinstance(e, vloop.Hang):
             res['hang'] = str(e)
             mon.append(dict(prop='C16', rule='async-hangs-sync-does-not',
                             detail=f'the async iteration never ends ({e}); the sync counterpart delivered '
